@@ -2,6 +2,74 @@
 
 package mimetype
 
-func (g *vfGen) runMore14(slice string) bool { return false }
+import (
+	"fmt"
+	"io"
+	"strconv"
+)
 
-func vfExecMore14(f []string, op string) (string, bool) { return "", false }
+type vfFlipReader struct {
+	data   []byte
+	pos    int
+	newLim uint32
+	done   bool
+}
+
+func (r *vfFlipReader) Read(p []byte) (int, error) {
+	if !r.done {
+		r.done = true
+		SetLimit(r.newLim) // a SetLimit that lands in the middle of the DetectReader call
+	}
+	if r.pos >= len(r.data) {
+		return 0, io.EOF
+	}
+	n := copy(p, r.data[r.pos:])
+	r.pos += n
+	return n, nil
+}
+
+func vfExecMore14(f []string, op string) (string, bool) {
+	switch f[0] {
+	case "limflip": // limflip lim newlim hex : the limit changes during DetectReader
+		l1, _ := strconv.ParseUint(f[1], 10, 32)
+		l2, _ := strconv.ParseUint(f[2], 10, 32)
+		data := vfUnhex(f[3])
+		SetLimit(uint32(l1))
+		a := vfRes(Detect(data))
+		SetLimit(uint32(l2))
+		b := vfRes(Detect(data))
+		SetLimit(uint32(l1))
+		m, err := DetectReader(&vfFlipReader{data: data, newLim: uint32(l2)})
+		return fmt.Sprintf("%s => %s %s %s %s", op, vfErrClass(err), vfRes(m), a, b), true
+	}
+	return vfExecMore15(f, op)
+}
+
+func (g *vfGen) runMore14(slice string) bool {
+	switch slice {
+	case "C06":
+		g.genC06()
+	default:
+		return g.runMore15(slice)
+	}
+	return true
+}
+
+func (g *vfGen) genC06() {
+	docs := [][]byte{
+		[]byte("  [1,"), []byte(`{"a":[1,2,3],"b":"text"}`), []byte("a,b\n1,2\n3,4\n5,"), []byte("{\"a\":1}\n{\"b\":2}\n{\"c\":"),
+		[]byte(g.jdocument()), []byte(g.jdocument()), g.textBytes(100), append(g.textBytes(40), g.bytes(40)...),
+		[]byte("<html><meta charset=latin1>caf\xe9"), []byte("PK\x03\x04aaaaaaaaaaaaaaaaaaaaaaaaaaaaaaaaaaaaaa"),
+	}
+	for _, d := range docs {
+		lims := []int{0, 1, 3, len(d) / 2, len(d) - 1, len(d), len(d) + 1, 3072}
+		for _, l1 := range lims {
+			for _, l2 := range lims {
+				if l1 <= 0 || l1 == l2 || l2 < 0 {
+					continue
+				}
+				g.emit(vfOp("limflip", l1, l2, d))
+			}
+		}
+	}
+}
